@@ -112,6 +112,8 @@ class Ctx:
         r = self.tasks.get(id(task))
         if r is None:
             gname = task.task_graph.split("@")[0]
+            if gname not in self.graph_desc and self.world["flags"].get("replication_factor", 1) > 1 and "_" in gname:
+                gname = gname.rsplit("_", 1)[0]  # a replica <application>_<i> of --replication_factor: same description
             r = {"name": task.name, "graph": task.task_graph, "gbase": gname, "uname": task.unique_name,
                  "released_at": None, "starts": [], "finishes": [], "removed_at": None,
                  "cancelled_at": None, "applied": None, "applied_at": None, "state": task._state.name,
@@ -383,6 +385,8 @@ def install():
         name = event.event_type.name
         if name == "TASK_PLACEMENT":
             _placement_attempt_after(ctx, event)
+        if name == "LOAD_PROFILE":
+            _loaded_profile_check(ctx, self, event)
         ctx.in_handler = None
         _scan_states(ctx)
         _idle_capacity_check(ctx)
@@ -1236,6 +1240,32 @@ def _scan_states(ctx):
                 ctx.violate("C06", "illegal_transition", f"{r['uname']}: {r['state']} -> {cur} via direct write")
             r["state"] = cur
             r["history"].append(cur)
+
+
+def _loaded_profile_check(ctx, sim, event):
+    """C01, decision recorded at the boundary: once the simulator has applied a LOAD_WORK_PROFILE decision, the profile
+    occupies on that worker exactly what the decided loading strategy demands (per resource name, read from the ledger)."""
+    pl = event.placement
+    if pl is None or pl.worker_id is None or pl.loading_strategy is None:
+        return
+    pool = sim._worker_pools.get_worker_pool(pl.worker_pool_id)
+    w = next((x for x in pool.workers if x.id == pl.worker_id), None) if pool is not None else None
+    if w is None:
+        return
+    ctx.count("applied_profile_loads_judged")
+    want, got = {}, {}
+    for res, q in pl.loading_strategy.resources.resources:
+        if q:
+            want[res.name] = want.get(res.name, 0) + q
+    try:
+        for res, q in w.resources.get_allocated_resources(pl.work_profile):
+            if q:
+                got[res.name] = got.get(res.name, 0) + q
+    except Exception as e:  # noqa
+        got = {"<error>": f"{type(e).__name__}: {e}"}
+    if got != want:
+        ctx.violate("C01", "profile_holds_other_than_its_loading_strategy",
+                    f"t={ctx.clock}: {pl.work_profile.name} loaded on {w.name} with a strategy that demands {want}; the ledger holds {got} for it")
 
 
 def _idle_capacity_check(ctx):
